@@ -111,7 +111,9 @@ prop(
           "all values pairwise distinct across (pair, step, index, offset); offsets 0..=2048 served and distinct, 2049 panics; sequential "
           "generators agree and are exclusive with indexed access; cross-shard randomness (real gen_and_distribute and the context's) "
           "identical on all shards of a helper and matching neighbours; with a leader that closes its seed channels without sending, "
-          "sibling shards must fail or hold their neighbours' randomness. consumption: for the multi-block values (16 x Fp25519, 32 x Fp32BitPrime, "
+          "sibling shards must fail or hold their neighbours' randomness. per-shard vs cross-shard: in runs on >= 2 shards (incl. complete queries "
+          "through the production entry point execute_hybrid_protocol with independently negotiated per-shard endpoints) the draws of one (step, index) "
+          "on several shards must not all be replicas of each other. consumption: for the multi-block values (16 x Fp25519, 32 x Fp32BitPrime, "
           "32 x Gf32Bit, Fp25519, BA144, BA256) every source block of from_random must feed exactly its own lane. log monitor: every PRSS draw of complete hybrid queries (1-2 "
           "shards, several sizes, padding on/off) and sharded shuffles (0..257 rows, 1-5 shards) is recorded by hook H5 and checked offline: "
           "no (generator, index:offset) drawn twice, equal outputs only for equal (step, index:offset). distinct = (origin, step, index, "
